@@ -89,6 +89,10 @@ def dispatch(E, f, args, node):
         if h is None:
             raise Unsupported('method %s (line %s)' % (qual, getattr(node, 'lineno', '?')))
         return h(E, f.bound, args, node)
+    if qual in E.contracts and not E.spec_mode and 'abstract' in E.contracts[qual] and args.pos \
+            and (isinstance(args.pos[0], Opaque) or (isinstance(args.pos[0], tuple) and args.pos[0]
+                                                      and isinstance(args.pos[0][0], Opaque))):
+        return E.contracts[qual]['abstract'](E, args, node)
     if qual in E.contracts and not E.spec_mode:
         if E.contracts[qual].get('inline'):
             return call_inline(E, qual, args, node)
@@ -199,6 +203,10 @@ def type_matches(T, v):
             return v is None
         if T == 'opaque':
             return isinstance(v, (Opaque, SDict))
+        if T == 'optdict':
+            return isinstance(v, Opaque) and getattr(v, 'cell', None) is not None
+        if T == 'sigrow':
+            return isinstance(v, Opaque)
         if T == STR:
             return isinstance(v, str) or (isinstance(v, Z) and v.ty == STR)
         if T == BOOL:
@@ -211,12 +219,16 @@ def type_matches(T, v):
     tag = T[0]
     if tag == 'const':
         return type(v) is type(T[1]) and v == T[1]
-    if tag in ('arr', 'series', 'list', 'nd'):
-        return isinstance(v, Arr)
+    if tag == 'grid':
+        return isinstance(v, Arr) and getattr(v, 'lead', None) == T[1] and len(v.shape) == T[1] + (1 if T[2] else 0)
+    if tag == 'nd':
+        return isinstance(v, Arr) and len(v.shape) == T[1]
+    if tag in ('arr', 'series', 'list'):
+        return isinstance(v, Arr) and getattr(v, 'lead', None) is None
     if tag == 'frame':
         return isinstance(v, Frame) and all(c in v.cols for c in T[1])
     if tag == 'dict':
-        return isinstance(v, SDict)
+        return isinstance(v, SDict) or (isinstance(v, Opaque) and getattr(v, 'cell', None) is not None)
     if tag == 'tuple':
         return isinstance(v, tuple) and len(v) == len(T[1])
     if tag == 'obj':
@@ -358,6 +370,8 @@ def b_isinstance(E, args, node):
         q = t.qual
         if q == 'builtins.dict' and isinstance(v, (SDict, dict)):
             return True
+        if q == 'builtins.dict' and isinstance(v, Opaque) and getattr(v, 'cell', None) is not None:
+            return True
         if q == 'builtins.list' and isinstance(v, (PyList, list)):
             return True
         if q == 'builtins.list' and isinstance(v, Arr) and v.kind == 'list':
@@ -368,7 +382,9 @@ def b_isinstance(E, args, node):
             return True
         if q not in ('builtins.dict', 'builtins.list', 'numpy.ndarray', 'pandas.DataFrame'):
             raise Unsupported('isinstance against %s' % q)
-    if isinstance(v, (Opaque, Opt)):
+    if isinstance(v, Opt):
+        raise Unsupported('isinstance of optional value')
+    if isinstance(v, Opaque) and getattr(v, 'cell', None) is None and not hasattr(v, 'arr'):
         raise Unsupported('isinstance of opaque value')
     return False
 
@@ -479,6 +495,12 @@ def b_list(E, args, node):
         if all(isinstance(p, bool) for p, _ in d.items.values()):
             return PyList(E.new_ident(), [k for k, (p, _) in d.items.items() if p])
         return ('symkeys', d)
+    from . import grid
+    if isinstance(v, grid.Lazy):
+        return grid.lazy_to_list(E, v)
+    if grid.is_grid(v):
+        clo = E.st.heap[v.ident]
+        return grid.grid(E, v.shape, v.lead, clo, 'list', owner=grid.owner_of(v))        # new list, same element objects
     if isinstance(v, Arr):
         return E.snapshot(v, kind='list')
     raise Unsupported('list(%r)' % (v,))
@@ -580,6 +602,10 @@ def np_errstate(E, args, node):
 @libfn('numpy.array')
 def np_array(E, args, node):
     v = args.pos[0]
+    from . import grid
+    if grid.is_grid(v):
+        clo = E.st.heap[v.ident]
+        return grid.grid(E, v.shape, v.lead, clo, 'ndarray', owner=grid.owner_of(v))      # object array of the same dicts
     if isinstance(v, Arr):
         return E.snapshot(v, kind='ndarray')
     if isinstance(v, PyList) and all(isinstance(x, (Z, X, int, float, bool)) for x in v.items):
@@ -809,6 +835,14 @@ def copy_deepcopy(E, args, node):
 
 
 def deep_copy(E, v):
+    from . import grid
+    if grid.is_grid(v):
+        clo = E.st.heap[v.ident]
+        return grid.grid(E, v.shape, v.lead, clo, v.kind)          # new container AND new element objects (owner = itself)
+    if isinstance(v, Opaque) and getattr(v, 'cell', None) is not None:
+        o = Opaque(v.t, v.note)
+        o.cell = {'ident': E.new_ident(True), 't': v.t}
+        return o
     if isinstance(v, Arr):
         return E.snapshot(v)
     if isinstance(v, SDict):
@@ -1403,3 +1437,63 @@ def np_median(E, args, node):
             E.assume(z3.Implies(n >= 1, z3.And(z3.ToReal(first) <= r, r <= z3.ToReal(last))))
         return Z(r, REAL)
     raise Unsupported('np.median(%r)' % (v,))
+
+
+@method('Arr.flatten')
+def arr_flatten(E, a, args, node):
+    from . import grid
+    if grid.is_grid(a):
+        return grid.grid_flatten(E, a, node)
+    if a.ndim == 1:
+        return E.snapshot(a)
+    raise Unsupported('flatten')
+
+
+@method('Arr.reshape')
+def arr_reshape(E, a, args, node):
+    from . import grid
+    if grid.is_grid(a):
+        return grid.grid_reshape(E, a, args.pos, node)
+    raise Unsupported('reshape')
+
+
+@libfn('numpy.swapaxes')
+def np_swapaxes(E, args, node):
+    from . import grid
+    a = args.pos[0]
+    if grid.is_grid(a):
+        return grid.grid_swapaxes(E, a, args.pos[1], args.pos[2], node)
+    raise Unsupported('swapaxes')
+
+
+@libfn('bycycle.group.utils.progress_bar')
+def progress_bar_contract(E, args, node):
+    """trusted contract of progress_bar (its body has a try/except around the optional tqdm import): the same items in
+    the same order, or ValueError for an unknown progress option"""
+    it = args.get(0, 'iterable')
+    progress = args.get(1, 'progress')
+    ok = lib.contains(E, (None, 'tqdm', 'tqdm.notebook'), progress, node)
+    if not E.branch(ok, 'progress-option'):
+        raise RaiseSig('ValueError', node, 'progress option')
+    return it
+
+
+@libfn('copy.copy')
+def copy_copy(E, args, node):
+    """shallow copy: a new container holding the SAME element objects"""
+    from . import grid
+    v = args.pos[0]
+    if grid.is_grid(v):
+        clo = E.st.heap[v.ident]
+        return grid.grid(E, v.shape, v.lead, clo, v.kind, owner=grid.owner_of(v))
+    if isinstance(v, Opaque) and getattr(v, 'cell', None) is not None:
+        o = Opaque(v.t, v.note)
+        o.cell = {'ident': E.new_ident(True), 't': v.t}
+        return o
+    if isinstance(v, SDict):
+        return sdict_copy(E, v, args, node)
+    if isinstance(v, Arr):
+        return E.snapshot(v)
+    if v is None or isinstance(v, (int, float, str, bool, Z, X)):
+        return v
+    raise Unsupported('copy of %r' % (v,))
